@@ -7,12 +7,30 @@ configurations at once (syntactically, after normalisation) rather than at a few
 namespace Zrnt.Schema
 open Zrnt.SSZ
 
+/-- Names (of fields, constants, types) are stored as numbers: the bytes of the identifier read as a
+base-256 numeral. The kernel compares number literals natively, whereas comparing `String`s inside
+`decide` costs milliseconds each; the per-type obligations over the regenerated tables do tens of thousands of
+name comparisons. `n!"slot"` is the literal of the name `slot`. -/
+abbrev Name := Nat
+
+def Name.ofString (s : String) : Name := s.toList.foldl (fun acc c => acc * 256 + c.toNat) 0
+
+partial def Name.toString (n : Name) : String :=
+  let rec go (n : Nat) (acc : List Char) : List Char :=
+    if n = 0 then acc else go (n / 256) (Char.ofNat (n % 256) :: acc)
+  String.ofList (go n [])
+
+open Lean in
+macro:max "n!" s:str : term => do
+  let v := s.getString.toList.foldl (fun acc c => acc * 256 + c.toNat) 0
+  return Syntax.mkNumLit (toString v)
+
 /-- a configuration: the value of every named constant -/
-abbrev Config := String → Nat
+abbrev Config := Name → Nat
 
 inductive LExpr where
   | lit (n : Nat)
-  | const (name : String)
+  | const (name : Name)
   | mul (a b : LExpr)
   | add (a b : LExpr)
   | div (a b : LExpr)
@@ -30,7 +48,7 @@ instance : Mul LExpr := ⟨.mul⟩
 instance : Add LExpr := ⟨.add⟩
 instance : Div LExpr := ⟨.div⟩
 /-- `c "MAX_DEPOSITS"`: a configuration constant -/
-abbrev c (name : String) : LExpr := .const name
+abbrev c (name : Name) : LExpr := .const name
 
 mutual
 inductive STy where
@@ -45,20 +63,20 @@ inductive STy where
   | container (fs : SFields)
 inductive SFields where
   | nil
-  | cons (name : String) (t : STy) (rest : SFields)
+  | cons (name : Name) (t : STy) (rest : SFields)
 end
 
 instance : Inhabited STy := ⟨.bool⟩
 
-def SFields.ofList : List (String × STy) → SFields
+def SFields.ofList : List (Name × STy) → SFields
   | [] => .nil
   | (n, t) :: r => .cons n t (SFields.ofList r)
 
-def SFields.toList : SFields → List (String × STy)
+def SFields.toList : SFields → List (Name × STy)
   | .nil => []
   | .cons n t r => (n, t) :: r.toList
 
-def STy.struct (fs : List (String × STy)) : STy := .container (SFields.ofList fs)
+def STy.struct (fs : List (Name × STy)) : STy := .container (SFields.ofList fs)
 
 mutual
 def STy.eval (c : Config) : STy → Ty
@@ -73,7 +91,7 @@ def STy.eval (c : Config) : STy → Ty
   | .container fs => .container (fs.eval c)
 def SFields.eval (c : Config) : SFields → Fields
   | .nil => .nil
-  | .cons n t r => .cons n (t.eval c) (r.eval c)
+  | .cons n t r => .cons (Name.toString n) (t.eval c) (r.eval c)
 end
 
 mutual
